@@ -4945,6 +4945,12 @@ class PyCdlib:
         # Above we checked to make sure we got at least one old path, so we
         # don't need to worry about the else situation here.
 
+        if old_rec.is_dir():
+            # A hard link is another name for the contents of a file.  A
+            # directory has no Inode to link to, and ISO9660, Joliet and UDF
+            # all want exactly one entry per directory.
+            raise pycdlibexception.PyCdlibInvalidInput('Cannot make a hard link to a directory')
+
         if isinstance(old_rec, dr.DirectoryRecord) and old_rec.data_continuation is not None:
             # A very large file is made up of several Directory Records that
             # directly follow each other, each with an Inode of its own for
